@@ -15,6 +15,8 @@ import (
 )
 
 type evaluator struct {
+	specName   string           // innermost enclosing spec function
+	specParams map[string]*Val  // its actual parameters
 	sumDepth int
 	lazy  map[string]ast.Expr
 	x     *Exec
@@ -478,6 +480,10 @@ func (ev *evaluator) fieldOf(base *Val, name string) *Val {
 				p := ev.x.ptrOf(base)
 				ft := st.Field(i).Type()
 				if p.kind == pkObj && len(p.path) == 0 {
+					if !hasFreeBound(p.ref) {
+						// ground read: with the typing facts of the heap version that supplies the value
+						return &Val{T: ev.x.readField(ev.st, pt.Elem(), i, p.ref), Typ: ft}
+					}
 					return &Val{T: ev.x.ctx.hread(ev.st, fieldMapName(pt.Elem(), i), TE.SortOf(ft), p.ref), Typ: ft}
 				}
 				return &Val{T: ev.x.load(ev.st, p.extend(pathStep{field: i, typ: pt.Elem()})), Typ: ft}
@@ -488,7 +494,11 @@ func (ev *evaluator) fieldOf(base *Val, name string) *Val {
 	if st, ok := t.Underlying().(*types.Struct); ok {
 		for i := 0; i < st.NumFields(); i++ {
 			if st.Field(i).Name() == name {
-				return &Val{T: TE.Field(t, i, base.T), Typ: st.Field(i).Type()}
+				v := TE.Field(t, i, base.T)
+				if !hasFreeBound(v) {
+					ev.x.assumeTypeB(ev.st, v, st.Field(i).Type(), ev.x.bnd(ev.st, base.T))
+				}
+				return &Val{T: v, Typ: st.Field(i).Type()}
 			}
 		}
 		ev.errorf("no field %s in %s", name, t)
@@ -580,14 +590,30 @@ func (ev *evaluator) callExpr(n *ast.CallExpr) *Val {
 			hi := ev.ev(n.Args[2])
 			// The summand is always evaluated in the function's entry heap, so that every occurrence of the same
 			// source expression denotes the same (canonical) function of the index.
-			bv := ev.x.sumVar(fmt.Sprintf("d%d", ev.sumDepth))
-			sub := &evaluator{x: ev.x, fr: ev.fr, st: ev.fr.entry, lets: map[string]*Val{}, lazy: ev.lazy, blk: ev.blk, over: ev.over, sumDepth: ev.sumDepth + 1}
+			bv := ev.x.sumVar(fmt.Sprintf("%s.d%d", ev.specName, ev.sumDepth), SInt)
+			sub := &evaluator{x: ev.x, fr: ev.fr, st: ev.fr.entry, lets: map[string]*Val{}, lazy: ev.lazy, blk: ev.blk, over: ev.over, sumDepth: ev.sumDepth + 1, specName: ev.specName}
 			for k, v := range ev.lets {
 				sub.lets[k] = v
 			}
+			// inside a specification function the summand is abstracted over the function's parameters, so that
+			// every application of the function uses the same sum function (with the actuals as arguments)
+			actual := map[int]*Term{}
+			for pn, pv := range ev.specParams {
+				if pv.T == nil {
+					continue
+				}
+				cv := ev.x.sumVar("sp."+ev.specName+"."+pn, pv.T.sort)
+				sub.lets[pn] = &Val{T: cv, Typ: pv.Typ}
+				actual[cv.id] = pv.T
+			}
 			sub.lets[name] = &Val{T: bv, Typ: intT}
 			body := sub.ev(n.Args[3])
-			return &Val{T: ev.x.sumTerm(ev.st, bv, body.T, lo.T, hi.T), Typ: intT}
+			res := ev.x.sumTerm(ev.st, bv, body.T, lo.T, hi.T)
+			if len(actual) > 0 {
+				res = substTerm(res, actual)
+				ev.x.unfoldSum(ev.st, res)
+			}
+			return &Val{T: res, Typ: intT}
 		case "implies":
 			a := ev.ev(n.Args[0])
 			b := ev.ev(n.Args[1])
@@ -817,10 +843,13 @@ func (ev *evaluator) applySpec(sf *SpecFunc, args []ast.Expr) *Val {
 		}
 		return &Val{T: UF("spec."+sanitize(sf.Pkg[strings.LastIndex(sf.Pkg, "/")+1:])+"."+sf.Name, rs, ts...), Typ: rt}
 	}
-	sub := &evaluator{x: ev.x, fr: ev.fr, st: ev.st, over: ev.over, lets: map[string]*Val{}, blk: ev.blk, owned: ev.owned, sumDepth: ev.sumDepth}
+	sub := &evaluator{x: ev.x, fr: ev.fr, st: ev.st, over: ev.over, lets: map[string]*Val{}, blk: ev.blk, owned: ev.owned, sumDepth: 0}
 	// spec bodies are resolved in the package that declares them
+	sub.specName = sf.Name
+	sub.specParams = map[string]*Val{}
 	for i, p := range sf.Params {
 		sub.lets[p.Name] = ev.ev(args[i])
+		sub.specParams[p.Name] = sub.lets[p.Name]
 	}
 	// keep outer lets that are spec-level helpers out of scope (lexical scoping)
 	saved := ev.fr
